@@ -19,7 +19,7 @@ package main
 //                              GetStats | GetNodeInfo | any other unary RPC, request filled by
 //                              field name)
 //         t <h> put K V | del K | get K | commit | rollback      on transaction handle h
-//         l begin rw|ro        GetTransactionManager().BeginTransaction (finding F1)
+//         l begin rw|ro        GetTransactionManager().BeginTransaction (the accessor path; F1, fixed in b9d5905)
 //         r put K V | del K | merge K V | bad K V | sync          EngineApplier.Apply / Sync
 //         dump                 IsReadOnly + full scan through the embedded iterator
 // Observations (mirrored by model/drv_c16.ml): R <result> | B h=<n> ok [ro=0|1] | G .. |
@@ -280,14 +280,30 @@ func callFacade(e *engine.EngineFacade, name string, k, v []byte) (results []ref
 	return res, err, true
 }
 
-// does a returned value hand out a way to write that is not a transaction of a guarded begin?
-func isCapability(v reflect.Value) bool {
+// does a returned value hand out a way to write on a read-only engine? Something that begins
+// transactions is tried: the engine is made read-only, a read-write begin is asked for, and the
+// value is a capability iff a read-write transaction comes back. Anything that appends to the log
+// or applies batches directly counts by its method set.
+func isCapability(e *engine.EngineFacade, v reflect.Value) bool {
 	if !v.IsValid() || (v.Kind() == reflect.Ptr || v.Kind() == reflect.Interface) && v.IsNil() {
 		return false
 	}
-	for _, nm := range []string{"BeginTransaction", "Append", "AppendBatch", "ApplyBatch"} {
+	for _, nm := range []string{"Append", "AppendBatch", "ApplyBatch"} {
 		if v.MethodByName(nm).IsValid() {
 			return true
+		}
+	}
+	if b := v.MethodByName("BeginTransaction"); b.IsValid() && b.Type().NumIn() == 1 && b.Type().In(0) == tBool {
+		was := e.IsReadOnly()
+		e.SetReadOnly(true)
+		defer e.SetReadOnly(was)
+		res := b.Call([]reflect.Value{reflect.ValueOf(false)})
+		if len(res) > 0 && res[0].CanInterface() {
+			if tx, ok := res[0].Interface().(txLike); ok && tx != nil && !reflect.ValueOf(tx).IsNil() {
+				rw := !tx.IsReadOnly()
+				tx.Rollback()
+				return rw
+			}
 		}
 	}
 	return false
@@ -466,7 +482,7 @@ func runC16Table(c *Case, out func(string)) {
 					tx.Commit()
 					continue
 				}
-				if isCapability(r) {
+				if isCapability(tw.e, r) {
 					capab = true
 				}
 				if it, ok := r.Interface().(interface{ Valid() bool }); ok && it != nil {
@@ -537,7 +553,7 @@ func b2i(b bool) int {
 }
 
 // ---------------------------------------------------------------------------------------
-// the race case (finding F2): Apply of Merge entries against concurrent client puts
+// the race case (F2, fixed in 574c666): Apply of Merge entries against concurrent client puts
 // ---------------------------------------------------------------------------------------
 
 func runC16Race(c *Case, out func(string)) {
@@ -588,9 +604,6 @@ func runC16Race(c *Case, out func(string)) {
 	out(fmt.Sprintf("NOTE race applies=%d client_attempts=%d accepted=%d client_keys_in_data=%d", iters, attempts, accepted, clientKeys))
 	if accepted > 0 || clientKeys > 0 {
 		out(fmt.Sprintf("ORACLE FAIL C16: %d client puts were accepted (and %d client keys are in the data) on a replica while the applier applied entries of type %d", accepted, clientKeys, entryType))
-		if entryType == wal.OpTypeMerge {
-			out("KF merge_apply_opens_window")
-		}
 	} else {
 		out("ORACLE ok")
 	}
@@ -898,7 +911,7 @@ func runC16(c *Case, out func(string)) {
 			}
 		case "l":
 			wantRO := l[2] == "ro"
-			if blocks(wantRO, false) {
+			if blocks(wantRO, true) {
 				out("B blocked")
 				break
 			}
@@ -907,7 +920,22 @@ func runC16(c *Case, out func(string)) {
 				out("B err:no_accessor")
 				break
 			}
-			r2 := res[0].MethodByName("BeginTransaction").Call([]reflect.Value{reflect.ValueOf(wantRO)})
+			// the begin is expected not to wait (it is read-only on a read-only engine); should the
+			// accessor hand out an unguarded manager again it would wait for the open readers
+			ch := make(chan []reflect.Value, 1)
+			go func() {
+				ch <- res[0].MethodByName("BeginTransaction").Call([]reflect.Value{reflect.ValueOf(wantRO)})
+			}()
+			var r2 []reflect.Value
+			select {
+			case r2 = <-ch:
+			case <-time.After(3 * time.Second):
+				out("B hung")
+				fail("C16: BeginTransaction through GetTransactionManager() waits for the transaction lock like a read-write begin although the engine is read-only")
+			}
+			if r2 == nil {
+				break
+			}
 			if !r2[1].IsNil() {
 				out("B " + c16Err(r2[1].Interface().(error)))
 				break
@@ -917,7 +945,6 @@ func runC16(c *Case, out func(string)) {
 			out(fmt.Sprintf("B h=%d ok ro=%s", len(handles)-1, b01(tx.IsReadOnly())))
 			if isReplica && !tx.IsReadOnly() {
 				fail("C16: GetTransactionManager().BeginTransaction(false) on a replica handed out a read-write transaction")
-				out("KF facade_leaks_tx_manager")
 			}
 		case "g":
 			switch l[1] {
@@ -1414,7 +1441,11 @@ func genC16(w *bufio.Writer, seed int64, n int, tier string) {
 				if writable && len(open) > 0 {
 					m = "ro" // a read-write begin would wait for the open readers
 				}
-				fmt.Fprintf(w, "%s BeginTransaction %s\n", api, m)
+				if r.Intn(5) == 0 {
+					fmt.Fprintf(w, "l begin %s\n", m) // through GetTransactionManager()
+				} else {
+					fmt.Fprintf(w, "%s BeginTransaction %s\n", api, m)
+				}
 				open = append(open, nh)
 				nh++
 				if writable && m == "rw" {
